@@ -7,6 +7,7 @@ import J5V.Print.Layout
 import J5V.Print.Wire
 import J5V.Print.Scalar
 import J5V.Print.Cover
+import J5V.Print.CoverLead
 /-! Line-protocol driver for the print cluster (C05), core only.
 One op per input line, one result per output line; see /verif/harness/PROTOCOL-print.md. -/
 open J5V.Go J5V.Print
@@ -182,10 +183,31 @@ def stepCover (toks : List String) : String :=
       if Cover.simpleFileB gen f.arranged then origin ++ " 1"
       else origin ++ " 0 " ++ ",".intercalate (Cover.whyNot gen f.arranged)
 
+/-- `cover2 <k> <input op …> @ <summary>`: do the hypotheses of the layout theorem `C05_reprint_fixed_leading` hold of
+the summarised descriptor `d` and of what the grammar model reads from the model's text (`d'`)? Evaluates the
+decidable `Cover.quietLFileB d.arranged` and `Cover.relaidFileLB d.arranged d'` (both proved sound): `<origin> 1`
+or `<origin> 0 <reason>` (evidence only, see checks/C05.py) -/
+def stepCover2 (toks : List String) : String :=
+  let origin := (toks.drop 1).headD "?"
+  match (toks.dropWhile (· != "@")).drop 1 with
+  | [] => "bad-op"
+  | sum =>
+    match Wire.pFile sum with
+    | none => "bad-op"
+    | some (gen, f) =>
+      if !f.determined then origin ++ " 0 unspecified"
+      else
+        let t := f.arranged
+        let d' := Grammar.parseFile (Layout.printText gen f)
+        let ok := Cover.quietLFileB t && (match d' with | some d' => Cover.relaidFileLB t d' | none => false)
+        if ok then origin ++ " 1" ++ (if Cover.locNoneAllB t then "" else " lead")
+        else origin ++ " 0 " ++ Cover.whyNotReprint t d'
+
 def step (line : String) : String :=
   match line.trimAscii.toString.splitOn " " with
   | "file" :: rest => stepFile rest
   | "cover" :: rest => stepCover rest
+  | "cover2" :: rest => stepCover2 rest
   | ["int", v] => match v.toInt? with
     | some n =>
       let text := Scalar.formatInt n
